@@ -346,7 +346,32 @@ def corpus_cases():
     return out
 
 
+def enum_removed_cases():
+    """Enumerated (every run): the kernel has already removed a watch (file deleted: IN_DELETE_SELF then IN_IGNORED, or a burst of ordinary
+    events then IN_IGNORED, all in one read) and a handler working through the earlier records unregisters it (inotify_rm_watch then fails
+    with EINVAL), frees it, or registers it again; the actor is the watch itself or another watch whose record comes first."""
+    cases = []
+    batches = [[(1, 0x400), (1, IN_IGNORED)], [(1, 0x2), (1, 0x2), (1, IN_IGNORED)], [(1, 0x400), (1, IN_IGNORED), (1, 0x2)]]
+    acts = ["unwatch 0", "unwatch 0 ; free 0", "unwatch 0 ; watch 0 0 2 1", "unwatch 0 ; watch 0 0 2 3", "unwatch 0 ; uninst 0 keep"]
+    for bi, batch in enumerate(batches):
+        for ai, act in enumerate(acts):
+            for actor in ("self", "other"):
+                for fill in ("zero", "junk"):
+                    ops = [f"inst 0 {fill} ok", "watch 0 0 fff 1", "watch 1 0 fff 2"]
+                    recs = list(batch)
+                    if actor == "other":
+                        recs = [(2, 0x2)] + recs
+                        ops.append(f"react 1 0 {act}")
+                    else:
+                        ops.append(f"react 0 0 {act}")
+                    ops.append("event 0 d " + " ".join(f"{wd}:{m:x}:0:0:z" for wd, m in recs))
+                    ops.append("event 0 d 2:2:0:0:z 1:2:0:0:z")
+                    cases.append((f"removed-b{bi}-a{ai}-{actor}-{fill}", ops))
+    return cases
+
+
 def gen_cases(tier, seed):
+    yield from enum_removed_cases()
     rng = random.Random(seed * 130003 + 20)
     for i in range(400 if tier == "quick" else 6000):
         if i % 20 == 19:
